@@ -261,17 +261,59 @@ def mk_noise(nz):
     raise ValueError(k)
 
 
+# phase 6: constructor calls with arguments left out.  A step may carry "omit": [keys]; those arguments are then NOT handed to the constructor
+# (the class for filters / Pipes.join / BatchSafe'd steps, the Environments shortcut otherwise) and the step's value for them is what the
+# constructor's default is expected to be (the model's named defaults; compared with inspect.signature of the real code and with the source).
+FILTER_DEFAULTS = {"sparsify": {"c": True, "a": False}, "densify": {"n": 400, "m": "lookup", "c": True, "a": False},
+                   "repr": {"cc": None, "ca": None}, "cycle": {"after": 0}}
+ENV_DEFAULTS = {"sparsify": {"c": True, "a": False}, "densify": {"c": True, "a": False}, "repr": {"cc": "onehot", "ca": "onehot"}}
+FILTER_KW = {"sparsify": {"c": "context", "a": "action"}, "densify": {"n": "n_feats", "m": "method", "c": "context", "a": "action"},
+             "repr": {"cc": "categorical_context", "ca": "categorical_actions"}, "cycle": {"after": "after"}}
+ENV_KW = {"sparsify": {"c": "context", "a": "action"}, "densify": {"n": "n_feats", "m": "method", "c": "context", "a": "action"},
+          "repr": {"cc": "cat_context", "ca": "cat_actions"}}
+
+
+def resolve_defaults(case):
+    """the case with every left-out constructor argument set to the default its constructor is expected to have (idempotent)"""
+    chain = case.get("chain") or []
+    if not any(st.get("omit") for st in chain):
+        return case
+    bstates, _ = batch_states(chain)
+    out = []
+    for st, b in zip(chain, bstates):
+        if st.get("omit"):
+            env = case.get("via") == "shortcuts" and not b
+            d = (ENV_DEFAULTS if env else FILTER_DEFAULTS).get(st["f"], {})
+            st = dict(st)
+            st["omit"] = [k for k in st["omit"] if k in d]
+            for k in st["omit"]:
+                st[k] = d[k]
+            st["ctor"] = "env" if env else "filter"
+            if not st["omit"]:
+                del st["omit"]
+        out.append(st)
+    return dict(case, chain=out)
+
+
+def ctor_kwargs(st, names):
+    """keyword arguments for the constructor of step `st`, without the ones the case leaves out"""
+    om = set(st.get("omit") or [])
+    return {kw: st[k] for k, kw in names[st["f"]].items() if k not in om}
+
+
 def mk_filter(st, batched_size=None):
     import coba.environments.filters as ef
     f = st["f"]
+    # a step built by an Environments shortcut in the pipeline is built with explicit (resolved) arguments when it is needed as a class instance
+    omit = bool(st.get("omit")) and st.get("ctor") != "env"
     if f == "repr":
-        flt = ef.Repr(st["cc"], st["ca"])
+        flt = ef.Repr(**ctor_kwargs(st, FILTER_KW)) if omit else ef.Repr(st["cc"], st["ca"])
     elif f == "flatten":
         flt = ef.Flatten()
     elif f == "sparsify":
-        flt = ef.Sparsify(context=st["c"], action=st["a"])
+        flt = ef.Sparsify(**ctor_kwargs(st, FILTER_KW)) if omit else ef.Sparsify(context=st["c"], action=st["a"])
     elif f == "densify":
-        flt = ef.Densify(n_feats=st["n"], method=st["m"], context=st["c"], action=st["a"])
+        flt = ef.Densify(**ctor_kwargs(st, FILTER_KW)) if omit else ef.Densify(n_feats=st["n"], method=st["m"], context=st["c"], action=st["a"])
     elif f == "noise":
         flt = ef.Noise(context=mk_noise(st.get("c")), action=mk_noise(st.get("a")), reward=None, seed=st.get("seed", 1))
     elif f == "batch":
@@ -281,7 +323,7 @@ def mk_filter(st, batched_size=None):
     elif f == "finalize":
         flt = ef.Finalize()
     elif f == "cycle":
-        flt = ef.Cycle(after=st["after"])
+        flt = ef.Cycle(**ctor_kwargs(st, FILTER_KW)) if omit else ef.Cycle(after=st["after"])
     else:
         raise ValueError(f)
     if batched_size:
@@ -325,6 +367,7 @@ class Pipeline:
     """the whole chain, composed exactly as coba composes it, built ONCE: every sequence given to `run` goes through the same filter objects"""
 
     def __init__(self, case):
+        case = resolve_defaults(case)
         self.case = case
         self.source = None
         chain = case["chain"]
@@ -344,6 +387,12 @@ class Pipeline:
                 f = st["f"]
                 if b and f not in ("batch", "unbatch"):
                     envs = envs.filter(mk_filter(st, b))
+                elif st.get("omit") and f == "repr":
+                    envs = envs.repr(**ctor_kwargs(st, ENV_KW))
+                elif st.get("omit") and f == "sparsify":
+                    envs = envs.sparse(**ctor_kwargs(st, ENV_KW))
+                elif st.get("omit") and f == "densify":
+                    envs = envs.dense(**ctor_kwargs(st, ENV_KW))
                 elif f == "repr":
                     envs = envs.repr(st["cc"], st["ca"])
                 elif f == "flatten":
@@ -414,6 +463,46 @@ def aborting_source(case, seq, k):
 
 
 # ------------------------------------------------------------------ observation
+def counting_source(case, seq):
+    """(source, counter): a generator of fresh objects that counts the items it has handed out (an abandoned read: the consumer stops early)"""
+    wrap = case.get("wrap")
+    n = [0]
+
+    def gen():
+        for it in seq:
+            n[0] += 1
+            yield mk_inter(it, wrap)
+    return gen, n
+
+
+def abandon_after(iterator, k):
+    """consume k items, then stop and close the iterator (GeneratorExit travels down the chain of generators)"""
+    got = 0
+    try:
+        for _ in iterator:
+            got += 1
+            if got >= k:
+                break
+    finally:
+        close_ = getattr(iterator, "close", None)
+        if close_ is not None:
+            close_()
+    return got
+
+
+def enc_model_stream(before):
+    """the members reaching a Densify step, as the driver's `table` op reads them"""
+    stream = []
+    for it in before:
+        d = {"context": enc_ordered(it.get("context"))}
+        if "actions" in it:
+            d["actions"] = [enc_ordered(a) for a in it["actions"]]
+        if "action" in it:
+            d["action"] = enc_ordered(it["action"])
+        stream.append(d)
+    return stream
+
+
 def members(out_stream):
     """flatten a possibly batched output stream into per-interaction dicts (direct indexing, no coba code)"""
     from coba.primitives import is_batch
@@ -641,6 +730,13 @@ def is_lossy(st, inp):
     if f == "flatten" and any((isinstance(v, (int, float)) and v == 0) or (isinstance(v, (list, tuple)) and any(isinstance(w, (int, float)) and w == 0 for w in v))
                               for d in _action_dicts(inp) for v in d.values()):
         return 1          # the sparse branch of Flatten drops stored zeros: {"y":0,…} and {…} become the same action
+    if f == "sparsify" and st.get("a"):
+        # phase 6 (seed 3 after the case sequence shifted): `_make_sparse` drops the zeros of a dense row, so (-2, 0) and (-2,) become the same sparse action
+        # {0: -2} - a merge by design, excused like the others only when two actions really came out equal
+        for it in inp:
+            for a in it.get("actions") or []:
+                if isinstance(a, (list, tuple)) and any(isinstance(w, (int, float)) and not isinstance(w, bool) and w == 0 for w in a):
+                    return 1
     if f in ("flatten", "finalize") or (f == "repr" and st.get("ca") == "onehot"):
         return 1 if name_clash(inp) else 0
     return 0
@@ -756,6 +852,30 @@ def check_roundtrips(label, ms, fails, tags, where, limit=3):
                                    "roundtrip(%s):%s:%s" % (name, key, rkind(m[key]))))
 
 
+def levels_vary(seq):
+    """does a categorical at the same place inside the actions (scalar action, or the same cell of a row) carry different level lists in this (JSON) sequence"""
+    seen = {}
+
+    def walk(v, path):
+        if isinstance(v, dict):
+            if "c" in v and "L" in v:
+                seen.setdefault(path, set()).add(tuple(v["L"]))
+                return
+            for key in ("l", "t"):
+                if key in v:
+                    for n_, x in enumerate(v[key]):
+                        walk(x, path + (n_,))
+            if "d" in v:
+                for k_, x in v["d"]:
+                    walk(x, path + (str(k_),))
+    for it in seq:
+        for a in it.get("actions") or []:
+            walk(a, ())
+        if it.get("action") is not None:
+            walk(it["action"], ())
+    return any(len(ls) > 1 for ls in seen.values())
+
+
 def check_representation_function(o, n, repmap, fails, tags, where, label, t):
     """(B) across the interactions of one stream: the new representation is a function of the action - wherever the same action value
     occurs (any interaction, any position) it gets the same representation.  An output that shows one action's features while it pays
@@ -802,6 +922,7 @@ class Stepwise:
     """the chain applied one filter at a time (materialising in between); filter objects built once and reused per sequence"""
 
     def __init__(self, case):
+        case = resolve_defaults(case)
         self.case = case
         self.chain = effective_chain(case)
         bstates, _ = batch_states(self.chain)
@@ -1390,6 +1511,8 @@ class Gen:
         if r.chance(0.25):
             chain.append(r.choice([{"f": "finalize"}, {"f": "sparsify", "c": False, "a": True}, {"f": "batch", "n": 2}]))
         case = {"stream": stream, "chain": chain, "via": r.wchoice([(40, "filters"), (30, "pipes"), (30, "shortcuts")]), "abort": k}
+        if r.chance(0.45):
+            case["abort_kind"] = "abandon"      # phase 6: the consumer stops after k items (GeneratorExit) instead of the source failing at item k
         if r.chance(0.4):
             case["delivery"] = "lazy"
         if r.chance(0.25):
@@ -1477,8 +1600,68 @@ class Gen:
             case["delivery"] = "lazy"
         return case
 
+    def leave_out(self, case, p=1.0):
+        """phase 6: constructor arguments left out (the constructor's default applies): for every Sparsify / Densify / Repr / Cycle step, with chance p,
+        a non-empty PRNG subset of its arguments"""
+        r = self.r
+        for st in case["chain"]:
+            keys = sorted(FILTER_DEFAULTS.get(st["f"], {}))
+            if keys and r.chance(p):
+                st["omit"] = sorted(r.shuffle(keys)[:r.randint(1, len(keys))])
+        return resolve_defaults(case)
+
+    def recurring_label_case(self):
+        """round i (im1): a HISTORY inside one stream — 3-6 interactions over categorical actions whose level lists are permuted / extended from one
+        interaction to the next, BinaryReward rewards (or IGL feedbacks) whose argmax LABEL recurs in a later interaction under another level order
+        (same string, other one-hot), through Repr (onehot / onehot_tuple / string) or Finalize"""
+        r = self.r
+        base = r.shuffle(LEVELS)[:r.choice([3, 3, 4])]
+        nint = r.randint(3, 6)
+        igl = r.chance(0.35)
+        logged = (not igl) and r.chance(0.2)
+        stream, seen = [], []
+        for t in range(nint):
+            lv = list(base) if t == 0 or r.chance(0.25) else r.shuffle(base) + ([l for l in LEVELS if l not in base][:1] if r.chance(0.3) else [])
+            labels = r.shuffle(lv)[:max(2, r.randint(2, len(lv)))]
+            again = [l for l in labels if l in seen]
+            arg = r.choice(again) if again and r.chance(0.8) else r.choice(labels)
+            seen.append(arg)
+            acts = [{"c": l, "L": list(lv)} for l in labels]
+            B = {"k": "binary", "argmax": {"c": arg, "L": list(lv)}, "value": r.choice([[1, 1], [1, 1], [2, 1], [1, 2]])}
+            it = {"context": r.choice([None, V_n(t)]), "actions": acts}
+            if igl:
+                it["rewards"] = {"k": "list", "v": [[i, 1] for i in range(len(acts))]}
+                it["feedbacks"] = B
+            else:
+                it["rewards"] = B
+            if logged:
+                it.update({"action": acts[r.below(len(acts))], "reward": [1, 2], "probability": [1, len(acts)]})
+            stream.append(it)
+        ca = r.choice(["onehot", "onehot", "onehot_tuple", "string"])
+        chain = [r.choice([{"f": "repr", "cc": r.choice(MODES), "ca": ca}, {"f": "repr", "cc": None, "ca": ca}, {"f": "finalize"}])]
+        if r.chance(0.25):
+            chain.append(r.choice([{"f": "sparsify", "c": True, "a": True}, {"f": "flatten"}, {"f": "batch", "n": 2}]))
+        case = {"stream": stream, "chain": chain, "via": r.wchoice([(50, "filters"), (20, "pipes"), (30, "shortcuts")])}
+        if r.chance(0.4):
+            case["delivery"] = "lazy"
+        return case
+
+    def defaults_case(self, tier):
+        """phase 6: a chain around Sparsify / Densify / Repr whose constructor calls leave arguments out, via classes / Pipes.join / shortcuts"""
+        r = self.r
+        focus = r.choice([
+            lambda g: {"f": "sparsify", "c": True, "a": True},
+            lambda g: {"f": "densify", "n": g.r.choice([3, 8, 400]), "m": g.r.choice(["lookup", "hashing"]), "c": g.r.chance(0.5), "a": True},
+            lambda g: {"f": "repr", "cc": g.r.choice(MODES), "ca": g.r.choice(MODES)},
+        ])
+        return self.leave_out(self.case(tier, focus), 1.0)
+
     def case(self, tier, focus=None):
         r = self.r
+        if focus is None and r.chance(0.03):
+            return self.defaults_case(tier)
+        if focus is None and r.chance(0.03):
+            return self.recurring_label_case()
         if focus is None and r.chance(0.03):
             return self.long_repr_case()
         if focus is None and r.chance(0.05):
@@ -1536,6 +1719,8 @@ class Gen:
         if case.get("wrap") == "hashable":
             # HashableSparse views are hashable, the model's dicts are not: Cycle's `set(actions)` would differ
             case["chain"] = [st if st["f"] != "cycle" else {"f": "flatten"} for st in chain]
+        if r.chance(0.12):
+            case = self.leave_out(case, 0.7)
         if focus is None and not long_ and r.chance(0.08):
             return self.collection_case(P, case)
         # the same filter objects applied to one or two further sequences
@@ -1641,6 +1826,102 @@ def extract_repr_modes(repo):
     return got
 
 
+def extract_options(repo):
+    """phase 6: default values / method names / method dispatch / what the Environments shortcuts hand on, read off the source with `ast`"""
+    import ast
+    got = {}
+    ftree = ast.parse(open(os.path.join(repo, "coba", "environments", "filters.py"), encoding="utf-8").read())
+    ctree = ast.parse(open(os.path.join(repo, "coba", "environments", "core.py"), encoding="utf-8").read())
+
+    def cls(tree, name):
+        return next((n for n in tree.body if isinstance(n, ast.ClassDef) and n.name == name), None)
+
+    def meth(c, name):
+        return next((n for n in c.body if isinstance(n, ast.FunctionDef) and n.name == name), None) if c is not None else None
+
+    def defaults(fn):
+        """argument name -> constant default (only arguments that have one)"""
+        if fn is None:
+            return None
+        args = fn.args.args
+        ds = fn.args.defaults
+        out = {}
+        for a, d in zip(args[len(args) - len(ds):], ds):
+            if not isinstance(d, ast.Constant):
+                return None
+            out[a.arg] = d.value
+        return out
+
+    def bools(d, names):
+        return [d[n] for n in names] if d is not None and all(isinstance(d.get(n), bool) for n in names) else None
+
+    def modes(d, names):
+        if d is None or not all(n in d and (d[n] is None or isinstance(d[n], str)) for n in names):
+            return None
+        return ["None" if d[n] is None else d[n] for n in names]
+    dS, dD = defaults(meth(cls(ftree, "Sparsify"), "__init__")), defaults(meth(cls(ftree, "Densify"), "__init__"))
+    dR, dC = defaults(meth(cls(ftree, "Repr"), "__init__")), defaults(meth(cls(ftree, "Cycle"), "__init__"))
+    E = cls(ctree, "Environments")
+    eS, eD, eR = defaults(meth(E, "sparse")), defaults(meth(E, "dense")), defaults(meth(E, "repr"))
+    for key, val in (("sparsify_init", bools(dS, ["context", "action"])), ("densify_init_flags", bools(dD, ["context", "action"])),
+                     ("env_sparse", bools(eS, ["context", "action"])), ("env_dense_flags", bools(eD, ["context", "action"])),
+                     ("repr_init", modes(dR, ["categorical_context", "categorical_actions"])), ("env_repr", modes(eR, ["cat_context", "cat_actions"]))):
+        if val is not None:
+            got[key] = val
+    if eD is not None and ("n_feats" in eD or "method" in eD):
+        got.pop("env_dense_flags", None)        # the shortcut grew defaults the model does not know: leave the obligation to the fallback / (A)
+    if dD is not None and isinstance(dD.get("n_feats"), int) and not isinstance(dD.get("n_feats"), bool) and dD["n_feats"] >= 0:
+        got["densify_n"] = dD["n_feats"]
+    if dD is not None and isinstance(dD.get("method"), str):
+        got["densify_m"] = dD["method"]
+    if dC is not None and isinstance(dC.get("after"), int) and not isinstance(dC.get("after"), bool) and dC["after"] >= 0:
+        got["cycle_after"] = dC["after"]
+    # Literal['lookup','hashing'] of Densify.__init__'s `method`
+    di = meth(cls(ftree, "Densify"), "__init__")
+    if di is not None:
+        for a in di.args.args:
+            if a.arg == "method" and isinstance(a.annotation, ast.Subscript):
+                sl = a.annotation.slice
+                el = sl.elts if isinstance(sl, ast.Tuple) else [sl]
+                if all(isinstance(e, ast.Constant) and isinstance(e.value, str) for e in el):
+                    got["method_names"] = [e.value for e in el]
+    # _make_dense: if self._method == '<name>': <lookup | hashing> else: <the other>
+    md = meth(cls(ftree, "Densify"), "_make_dense")
+    if md is not None:
+        def branch(body):
+            src = [n for b in body for n in ast.walk(b)]
+            lk = any(isinstance(n, ast.Subscript) and isinstance(n.value, ast.Attribute) and n.value.attr == "_lookup" for n in src)
+            hs = any(isinstance(n, ast.Call) and isinstance(n.func, ast.Name) and n.func.id == "crc32" for n in src)
+            return "lookup" if lk and not hs else "hashing" if hs and not lk else None
+        for n in ast.walk(md):
+            if (isinstance(n, ast.If) and isinstance(n.test, ast.Compare) and len(n.test.ops) == 1 and isinstance(n.test.ops[0], (ast.Eq, ast.NotEq))):
+                sides = [n.test.left] + n.test.comparators
+                if any(isinstance(x, ast.Attribute) and x.attr == "_method" for x in sides):
+                    const = next((x.value for x in sides if isinstance(x, ast.Constant) and isinstance(x.value, str)), None)
+                    b1, b2 = branch(n.body), branch(n.orelse)
+                    if const is not None and b1 and b2:
+                        if isinstance(n.test.ops[0], ast.NotEq):
+                            b1, b2 = b2, b1
+                        got["method_branch"] = [const, b1, b2]
+                    break
+
+    def passes(fn, callee):
+        if fn is None:
+            return None
+        c = next((n for n in ast.walk(fn) if isinstance(n, ast.Call) and isinstance(n.func, ast.Name) and n.func.id == callee), None)
+        if c is None:
+            return None
+        out = [a.id if isinstance(a, ast.Name) else "?" for a in c.args]
+        out += ["%s=%s" % (k.arg, k.value.id if isinstance(k.value, ast.Name) else "?") for k in c.keywords]
+        return out
+    for key, fn, callee in (("env_sparse_passes", meth(E, "sparse"), "Sparsify"), ("env_dense_passes", meth(E, "dense"), "Densify"),
+                            ("env_repr_passes", meth(E, "repr"), "Repr")):
+        v = passes(fn, callee)
+        if v is not None:
+            got[key] = v
+    return got
+
+
 class C10(Property):
     id = "C10"
     prop_modules = ["CobaVerif.Props.C10"]
@@ -1656,6 +1937,7 @@ class C10(Property):
             "delivered as a materialised list or (30 %) lazily from a generator of fresh objects that are dropped after use, 7 % long streams of 20-60 "
             "interactions with fresh (LazySparse / HashableSparse / dict) action objects each, 15 % with one or two further sequences pushed through "
             "the same filter objects and judged on their own; "
+            "3 % + 12 % of the generic cases with constructor arguments LEFT OUT of Sparsify / Densify / Repr / Cycle and of the shortcuts (the default applies); "
             "non-trivial = some step changed the representation of the actions and there is a functional reward/feedback or a logged action to keep aligned; "
             "distinct by canonical JSON of the case")
     trusted_base = [
@@ -1672,6 +1954,11 @@ class C10(Property):
         "rotation constants and its `i >= after` comparison are re-extracted with ast from coba/environments/filters.py of the tree under test into "
         "Generated/C10Consts.lean on every run; source_constants_match / model_uses_constants (decide / rfl) tie them to the model's definitions; "
         "the extraction itself (ast patterns) is trusted, a reshaped source falls back to the model's constants and says so in the evidence",
+        "phase 6 translator tie: constructor defaults of Sparsify / Densify / Repr / Cycle and of Environments.sparse / dense / repr, Densify's method names, the "
+        "`if self._method == 'lookup'` dispatch of _make_dense (as a Lean function of the name) and the arguments each shortcut hands to the filter it builds are "
+        "re-extracted with ast into Generated/C10Options.lean on every run (option_defaults_match_source, method_dispatch_matches_source); the driver builds every "
+        "step through mkSparsify / mkDensify / mkRepr / mkCycle, so an argument the case leaves out is filled in by the MODEL's default; the real constructors' "
+        "inspect.signature and a real Densify(method=name) are compared with the model on every case (options-checked)",
         "the shape predicates of the injectivity theorems (denseCatShapeB, flattenShapeB) are evaluated by the driver on the real inputs of Repr/Flatten steps "
         "and their conclusion (the real filter keeps the action set a set) is checked on the real output",
     ]
@@ -1846,6 +2133,55 @@ class C10(Property):
                 f.write(mbody)
         notes.append("C10 repr modes / dispatch extracted from filters.py + pipes/rows.py: %s%s"
                      % (json.dumps(mgot, sort_keys=True), "; NOT found (model's own table used): %s" % mmissing if mmissing else ""))
+        # --- phase 6: option handling (defaults, method names, method dispatch, what the shortcuts hand on) -> Generated/C10Options.lean
+        #     (obligations: option_defaults_match_source, method_dispatch_matches_source)
+        odflt = {"sparsify_init": [True, False], "densify_init_flags": [True, False], "densify_n": 400, "densify_m": "lookup",
+                 "method_names": ["lookup", "hashing"], "method_branch": ["lookup", "lookup", "hashing"], "repr_init": ["None", "None"],
+                 "cycle_after": 0, "env_sparse": [True, False], "env_dense_flags": [True, False],
+                 "env_dense_passes": ["n_feats=n_feats", "method=method", "context=context", "action=action"],
+                 "env_sparse_passes": ["context", "action"], "env_repr": ["onehot", "onehot"], "env_repr_passes": ["cat_context", "cat_actions"]}
+        try:
+            ogot = extract_options(repo)
+        except Exception as e:
+            ogot = {}
+            notes.append("C10 options: extraction failed (%s)" % type(e).__name__)
+        ovals = dict(odflt)
+        ovals.update(ogot)
+        self._extracted_options = ogot
+        omissing = sorted(set(odflt) - set(ogot))
+
+        def lbool(xs):
+            return "[" + ", ".join("true" if x else "false" for x in xs) + "]"
+        mb = ovals["method_branch"]
+        obody = ("-- GENERATED by harness/props/c10.py from coba/environments/filters.py and coba/environments/core.py on every run; do not edit.\n"
+                 "namespace Coba.Generated.C10\n"
+                 "def sparsifyInitDefaults : List Bool := %s\n"
+                 "def densifyInitFlagDefaults : List Bool := %s\n"
+                 "def densifyInitN : Nat := %d\n"
+                 "def densifyInitMethod : String := %s\n"
+                 "def densifyMethodNames : List String := %s\n"
+                 "def densifyBranch (m : String) : String := if m == %s then %s else %s\n"
+                 "def reprInitDefaults : List String := %s\n"
+                 "def cycleInitAfter : Nat := %d\n"
+                 "def envSparseDefaults : List Bool := %s\n"
+                 "def envDenseFlagDefaults : List Bool := %s\n"
+                 "def envDensePasses : List String := %s\n"
+                 "def envSparsePasses : List String := %s\n"
+                 "def envReprDefaults : List String := %s\n"
+                 "def envReprPasses : List String := %s\n"
+                 "def optionsExtracted : Bool := %s\n"
+                 "end Coba.Generated.C10\n"
+                 % (lbool(ovals["sparsify_init"]), lbool(ovals["densify_init_flags"]), ovals["densify_n"], q(ovals["densify_m"]),
+                    lstr(ovals["method_names"]), q(mb[0]), q(mb[1]), q(mb[2]), lstr(ovals["repr_init"]), ovals["cycle_after"],
+                    lbool(ovals["env_sparse"]), lbool(ovals["env_dense_flags"]), lstr(ovals["env_dense_passes"]), lstr(ovals["env_sparse_passes"]),
+                    lstr(ovals["env_repr"]), lstr(ovals["env_repr_passes"]), "true" if not omissing else "false"))
+        opath = os.path.join(lean.LEAN_DIR, "CobaVerif", "Generated", "C10Options.lean")
+        oold = open(opath, encoding="utf-8").read() if os.path.exists(opath) else None
+        if oold != obody:
+            with open(opath, "w", encoding="utf-8") as f:
+                f.write(obody)
+        notes.append("C10 options (constructor defaults, Densify method names / dispatch, arguments the shortcuts hand on) extracted from filters.py + core.py: %s%s"
+                     % (json.dumps(ogot, sort_keys=True), "; NOT found (model's own value used): %s" % omissing if omissing else ""))
         return notes
 
     def generate(self, rng, tier):
@@ -1857,6 +2193,10 @@ class C10(Property):
             return g.noise_scalar_case()
         if rng.chance(0.12):
             return g.aborted_densify_case() if rng.chance(0.5) else g.hetero_logged_case()
+        if rng.chance(0.08):
+            return g.defaults_case(tier)
+        if rng.chance(0.08):
+            return g.recurring_label_case()
         if rng.chance(0.3):
             return g.indicator_collection(None, None) if rng.chance(0.35) else g.layout_collection() if rng.chance(0.5) else g.long_repr_case() if rng.chance(0.5) else g.case(tier)
         focus = rng.choice([
@@ -1928,6 +2268,57 @@ class C10(Property):
 
     def corpus(self):
         cs = [dict(_copy(c), via="filters") for c in WITNESSES.values()]
+        # round i (im1): the same argmax label recurs later in the stream under permuted / extended level lists (a per-stream memo keyed by the old
+        # argmax would hand the repeat the earlier interaction's one-hot): Repr and Finalize, onehot and onehot_tuple, rewards and IGL feedbacks
+        L1, L2, L3 = ["a", "b", "c"], ["c", "a", "b"], ["b", "d", "a", "c"]
+        K = lambda labels, lv: [{"c": l, "L": list(lv)} for l in labels]
+        BR = lambda l, lv, v=1: {"k": "binary", "argmax": {"c": l, "L": list(lv)}, "value": [v, 1]}
+        rows = [(["a", "b", "c"], L1, "a", 1), (["a", "b", "c"], L1, "b", 1), (["c", "a", "b"], L2, "a", 1), (["c", "b"], L2, "b", 2),
+                (["d", "a", "b"], L3, "a", 1), (["a", "b", "c"], L1, "b", 3)]
+        for layout in ("rewards", "feedbacks", "logged"):
+            st_ = []
+            for t, (labels, lv, arg, v) in enumerate(rows):
+                it = {"context": V_n(t + 1), "actions": K(labels, lv)}
+                if layout == "feedbacks":
+                    it["rewards"] = {"k": "list", "v": [[i, 1] for i in range(len(labels))]}
+                    it["feedbacks"] = BR(arg, lv, v)
+                else:
+                    it["rewards"] = BR(arg, lv, v)
+                if layout == "logged":
+                    it.update({"action": K(labels, lv)[-1], "reward": [1, 2], "probability": [1, 3]})
+                st_.append(it)
+            for ch in ([{"f": "repr", "cc": None, "ca": "onehot"}], [{"f": "repr", "cc": "onehot", "ca": "onehot"}], [{"f": "repr", "cc": None, "ca": "onehot_tuple"}],
+                       [{"f": "repr", "cc": "onehot_tuple", "ca": "onehot_tuple"}], [{"f": "repr", "cc": None, "ca": "string"}], [{"f": "finalize"}]):
+                for via in ("filters", "pipes", "shortcuts"):
+                    for n_ in (6, 3):
+                        c_ = {"stream": _copy(st_[:n_] if n_ == 6 else st_[:1] + st_[2:4]), "chain": _copy(ch), "via": via}
+                        cs.append(c_)
+                        if via == "filters":
+                            cs.append(dict(_copy(c_), delivery="lazy"))
+        # phase 6: constructor calls with arguments left out, pinned: sparse / scalar / categorical action sets with a functional reward, IGL
+        # feedbacks and a logged member, through every constructor (class, Pipes.join, shortcut) with every subset of its arguments left out
+        N = lambda i: {"n": [i, 1]}
+        D = lambda *kv: {"d": [[k, N(v)] for k, v in kv]}
+        C = lambda x: {"c": x, "L": ["a", "b", "c"]}
+        fn = lambda acts, vals: {"k": "fn", "table": [[a, [v, 1]] for a, v in zip(acts, vals)], "default": FN_DEFAULT}
+        sets = {"sparse": [D(("a", 1)), D(("b", 2), ("c", 3)), D(("a", 2), ("c", 1))], "num": [N(1), N(2), N(3)], "cat": [C("b"), C("a"), C("c")]}
+        ctx = {"sparse": D(("x", 5)), "num": {"t": [N(4), N(0), N(6)]}, "cat": {"t": [N(1), C("c")]}}
+        for nm, acts in sets.items():
+            streams = [
+                [{"context": ctx[nm], "actions": acts, "rewards": fn(acts, [3, 1, 2])}, {"context": ctx[nm], "actions": acts[::-1], "rewards": fn(acts, [5, 4, 6])}],
+                [{"context": ctx[nm], "actions": acts, "rewards": {"k": "list", "v": [[1, 1], [0, 1], [2, 1]]}, "feedbacks": fn(acts, [7, 8, 9])}],
+                [{"context": ctx[nm], "actions": acts, "action": acts[2], "reward": [1, 2], "probability": [1, 3], "rewards": fn(acts, [3, 1, 2])}],
+            ]
+            steps = [{"f": "sparsify", "c": True, "a": True}, {"f": "densify", "n": 5, "m": "hashing", "c": False, "a": True},
+                     {"f": "repr", "cc": "string", "ca": "onehot_tuple"}]
+            for st0 in steps:
+                keys = sorted(FILTER_DEFAULTS[st0["f"]])
+                subsets = [keys] + [[k] for k in keys] + ([[k for k in keys if k != "a"]] if "a" in keys else [])
+                for om in subsets:
+                    for via in ("filters", "pipes", "shortcuts"):
+                        for stream in streams:
+                            for tail in ([], [{"f": "finalize"}]) if via == "filters" and om == keys else ([],):
+                                cs.append(resolve_defaults({"stream": _copy(stream), "chain": [dict(st0, omit=list(om))] + tail, "via": via}))
         # round g (1): Flatten on logged interactions whose members nest differently, logged member at index 0 / 1, the first logged action nested
         # differently from the first member of the first action set
         def T(*xs):
@@ -1963,6 +2354,12 @@ class C10(Property):
                              {"k": "fn", "table": [[a, v] for a, v in zip(acts, vals)], "default": FN_DEFAULT})
                         st_.append({"context": None, "actions": acts, "rewards": R})
                     cs.append({"stream": st_, "chain": [{"f": "densify", "n": 4, "m": "lookup", "c": False, "a": True}], "via": via, "abort": k})
+                    # phase 6: the same history with the first read ABANDONED by its consumer after k items, and with a third read (`more`)
+                    cs.append({"stream": _copy(st_), "chain": [{"f": "densify", "n": 4, "m": "lookup", "c": False, "a": True}], "via": via, "abort": k,
+                               "abort_kind": "abandon"})
+                    if via != "shortcuts":
+                        cs.append({"stream": _copy(st_), "chain": [{"f": "densify", "n": 4, "m": "lookup", "c": False, "a": True}], "via": via, "abort": k,
+                                   "abort_kind": "abandon", "more": [_copy(st_[1:3])]})
         # densify_hashing_counterexample on the real code: crc32('a') % 7 == crc32('b') % 7 == 4 (a collision by design: excused in (B), compared in (A))
         ha, hb = {"d": [["a", V_n(1)]]}, {"d": [["b", V_n(1)]]}
         cs.append({"stream": [{"context": None, "actions": [ha, hb], "rewards": {"k": "fn", "table": [[ha, [5, 1]], [hb, [6, 1]]], "default": FN_DEFAULT}}],
@@ -2047,7 +2444,12 @@ class C10(Property):
 
     def _evaluate(self, case, driver):
         fails, tags = [], []
+        case = resolve_defaults(case)
         chain = effective_chain(case)
+        for st in chain:
+            if st.get("omit"):
+                tags.append("omit:%s:%s" % (st["f"], st["ctor"]))
+                tags.append("omit:%s(%s)" % (st["f"], ",".join(sorted(st["omit"]))))
         lazy = case.get("delivery") == "lazy"
         tags.append("via:" + case.get("via", "filters"))
         tags.append("delivery:" + ("lazy" if lazy else "list"))
@@ -2091,30 +2493,51 @@ class C10(Property):
             tags.append("collection:%d" % len(seqs))
         if case.get("abort") is not None and not collection:
             # round g: an aborted first read of `stream` on the SAME filter objects (pipeline objects and step-wise objects alike); nothing of it
-            # is judged, but what it leaves behind in the objects is part of the history of every later read
+            # is judged, but what it leaves behind in the objects is part of the history of every later read.
+            # phase 6: "abort_kind": "abandon" = the CONSUMER stops after k items and closes the iterator (GeneratorExit instead of an exception of
+            # the source); the history entry is the items the source really handed out
             k = int(case["abort"])
-            tags.append("aborted-read")
-            outcome = []
+            abandon = case.get("abort_kind") == "abandon"
+            tags.append("abandoned-read" if abandon else "aborted-read")
+            outcome, delivered = [], []
             if pipe is not None:
                 try:
-                    for _ in pipe.run(aborting_source(case, case["stream"], k), 0):
-                        pass
+                    if abandon:
+                        src, cnt = counting_source(case, case["stream"])
+                        abandon_after(pipe.run(src, 0), k)
+                        delivered.append(cnt[0])
+                    else:
+                        for _ in pipe.run(aborting_source(case, case["stream"], k), 0):
+                            pass
                     outcome.append(None)
                 except Exception as e:
                     outcome.append(type(e).__name__)
             if stepw.filters:
                 try:
-                    for _ in stepw.filters[0].filter(aborting_source(case, case["stream"], k)()):
-                        pass
+                    if abandon:
+                        src, cnt = counting_source(case, case["stream"])
+                        abandon_after(iter(stepw.filters[0].filter(src())), k)
+                        delivered.append(cnt[0])
+                    else:
+                        for _ in stepw.filters[0].filter(aborting_source(case, case["stream"], k)()):
+                            pass
                     outcome.append(None)
                 except Exception as e:
                     outcome.append(type(e).__name__)
-            clean = all(o == "ConnectionError" for o in outcome)
-            tags.append("aborted-read:" + ("at-item" if clean else "other"))
+            if abandon:
+                clean = all(o is None for o in outcome) and len(set(delivered)) == 1 and len(delivered) == len(outcome)
+                kk = delivered[0] if clean else None
+                tags.append("abandoned-read:" + ("clean" if clean else "other"))
+            else:
+                clean = all(o == "ConnectionError" for o in outcome)
+                kk = k
+                tags.append("aborted-read:" + ("at-item" if clean else "other"))
             for i, st in enumerate(chain):
                 if st["f"] == "densify" and st["m"] == "lookup":
-                    if i == 0 and clean and 0 <= k <= len(case["stream"]):
-                        prior[i] = densify_keys(st, members([mk_inter(it, case.get("wrap")) for it in case["stream"][:k]])[0])
+                    if i == 0 and clean and 0 <= kk <= len(case["stream"]):
+                        seen = members([mk_inter(it, case.get("wrap")) for it in case["stream"][:kk]])[0]
+                        prior[i] = densify_keys(st, seen)
+                        prior[("hist", i)] = [enc_model_stream(seen)]      # the history itself, folded by the model's runObjHistory
                     else:
                         prior[i] = None
         for si, mi in enumerate(order):
@@ -2138,6 +2561,7 @@ class C10(Property):
                 if st["f"] == "densify" and st["m"] == "lookup" and prior.get(i, []) is not None:
                     if i < len(r["steps"]) and not r["impl"]["error"]:
                         prior[i] = prior.get(i, []) + densify_keys(st, r["steps"][i][1])
+                        prior[("hist", i)] = prior.get(("hist", i), []) + [enc_model_stream(r["steps"][i][1])]
                     else:
                         prior[i] = None
             results.append({"impl": r["impl"], "model": model})
@@ -2188,6 +2612,8 @@ class C10(Property):
                 tags.append("consts-checked")
             if ans.get("modes") is not None:
                 self.check_modes(ans["modes"], fails, tags)
+            if ans.get("options") is not None:
+                self.check_options(ans["options"], fails, tags)
             # transitivity of == (pyEq_trans) on the well-formed values of this case, against the model's own matrix
             for i in range(len(objs)):
                 for j in range(len(objs)):
@@ -2204,6 +2630,52 @@ class C10(Property):
                 if ans["denseOnly"][i] and ans["denseOnly"][j] and ans["eq"][i][j] != ans["eq"][j][i]:
                     fails.append(F("C", "pyEq_symm fails in the model on %s / %s" % (json.dumps(rows[i])[:100], json.dumps(rows[j])[:100]), "C:pyEq-symm"))
         self.check_value_variants(rows, fails, tags, driver)
+
+    def check_options(self, mo, fails, tags):
+        """(A) phase 6: the model's named constructor defaults and its method dispatch against (1) what the harness expects when it leaves an argument
+        out, (2) inspect.signature of the REAL constructors / shortcuts, (3) the source extraction, (4) what a real Densify(method=name) does"""
+        import inspect
+        import coba.environments.filters as ef
+        from coba.environments import Environments
+        mine = {("filter", "sparsify"): dict(zip("ca", mo["sparsify"]["filter"])), ("env", "sparsify"): dict(zip("ca", mo["sparsify"]["env"])),
+                ("filter", "densify"): dict(zip("ca", mo["densify"]["filter"]), n=mo["densify_n"], m=mo["densify_m"]),
+                ("env", "densify"): dict(zip("ca", mo["densify"]["env"])),
+                ("filter", "repr"): dict(zip(("cc", "ca"), [None if x == "None" else x for x in mo["repr"]["filter"]])),
+                ("env", "repr"): dict(zip(("cc", "ca"), [None if x == "None" else x for x in mo["repr"]["env"]])),
+                ("filter", "cycle"): {"after": mo["cycle_after"]}}
+        real_fns = {("filter", "sparsify"): ef.Sparsify.__init__, ("filter", "densify"): ef.Densify.__init__, ("filter", "repr"): ef.Repr.__init__,
+                    ("filter", "cycle"): ef.Cycle.__init__, ("env", "sparsify"): Environments.sparse, ("env", "densify"): Environments.dense,
+                    ("env", "repr"): Environments.repr}
+        for (ctor, f), vals in mine.items():
+            exp = (ENV_DEFAULTS if ctor == "env" else FILTER_DEFAULTS)[f]
+            if exp != vals:
+                fails.append(F("A", "defaults of %s (%s constructor): harness expects %s, model %s" % (f, ctor, exp, vals), "A:option-default:%s:%s" % (ctor, f)))
+            try:
+                sig = inspect.signature(real_fns[(ctor, f)]).parameters
+            except (TypeError, ValueError):
+                continue
+            kw = (ENV_KW if ctor == "env" else FILTER_KW)[f]
+            real = {k: sig[kw[k]].default for k in vals if kw[k] in sig and sig[kw[k]].default is not inspect.Parameter.empty}
+            if real != vals:
+                fails.append(F("A", "defaults of %s (%s constructor): real signature %s, model %s" % (f, ctor, real, vals), "A:option-default:%s:%s" % (ctor, f)))
+        ext = getattr(PROPERTY, "_extracted_options", None) or {}
+        for key, val in (("sparsify_init", mo["sparsify"]["filter"]), ("env_sparse", mo["sparsify"]["env"]), ("densify_init_flags", mo["densify"]["filter"]),
+                         ("env_dense_flags", mo["densify"]["env"]), ("densify_n", mo["densify_n"]), ("densify_m", mo["densify_m"]),
+                         ("repr_init", mo["repr"]["filter"]), ("env_repr", mo["repr"]["env"]), ("cycle_after", mo["cycle_after"]),
+                         ("method_names", [m for m, _ in mo["methods"][:2]])):
+            if key in ext and ext[key] != val:
+                fails.append(F("A", "option `%s`: source %s, model %s" % (key, ext[key], val), "A:option-source:" + key))
+        # method dispatch: a real Densify(method=name) fills its look-up table exactly when the model says the name takes the look-up branch
+        for name, br in mo["methods"]:
+            try:
+                flt = ef.Densify(n_feats=4, method=name, context=False, action=True)
+                list(flt.filter([{"actions": [{"a": 1}, {"b": 2}], "rewards": [1, 2]}]))
+                real = "lookup" if len(flt._lookup) else "hashing"
+            except Exception as e:
+                real = type(e).__name__
+            if real != br:
+                fails.append(F("A", "Densify(method=%r): real code takes the %s branch, model %s" % (name, real, br), "A:method-dispatch"))
+        tags.append("options-checked")
 
     def check_modes(self, modes, fails, tags):
         """the model's mode table (name, branch for scalar categoricals, branch inside rows) against (1) the chains extracted from the source and
@@ -2336,14 +2808,7 @@ class C10(Property):
             if len(real) > 150:
                 continue
             before = steps[i][1]
-            stream = []
-            for it in before:
-                d = {"context": enc_ordered(it.get("context"))}
-                if "actions" in it:
-                    d["actions"] = [enc_ordered(a) for a in it["actions"]]
-                if "action" in it:
-                    d["action"] = enc_ordered(it["action"])
-                stream.append(d)
+            stream = enc_model_stream(before)
             try:
                 ans = driver.ask({"op": "table", "stream": stream, "chain": [], "n": st["n"], "c": st["c"], "a": st["a"], "prior": prior.get(i, []), "cfg": detect_cfg()})
             except Exception as e:
@@ -2357,6 +2822,27 @@ class C10(Property):
                 fails.append(F("A", where + "Densify look-up table after the sequence: implementation %s, model %s" % (json.dumps(real)[:300], json.dumps(ans["table"])[:300]), "A:densify-table"))
             if ans["keys"] != densify_keys(st, before):
                 fails.append(F("A", where + "keys asked by Densify: harness %s, model keysAsked %s" % (densify_keys(st, before)[:20], ans["keys"][:20]), "A:densify-keys"))
+            # phase 6 (densify_history_eq_prior): the same object's table when the model is given the HISTORY of earlier reads itself (complete,
+            # aborted and abandoned ones) and folds it with runObjHistory, instead of the harness' list of keys
+            hist = prior.get(("hist", i))
+            if hist and sum(len(h) for h in hist) <= 200:
+                try:
+                    ah = driver.ask({"op": "table", "stream": stream, "chain": [], "n": st["n"], "c": st["c"], "a": st["a"], "prior": [], "hist": hist, "cfg": detect_cfg()})
+                except Exception as e:
+                    tags.append("skipA:history:" + type(e).__name__)
+                    continue
+                if "error" in ah:
+                    tags.append("skipA:history-unmodelled")
+                    continue
+                tags.append("history-checked:%d" % min(len(hist), 3))
+                if ah["table"] != real:
+                    fails.append(F("A", where + "Densify look-up table after a history of %d earlier reads: implementation %s, model runObjHistory %s"
+                                   % (len(hist), json.dumps(real)[:300], json.dumps(ah["table"])[:300]), "A:densify-history-table"))
+                if ah["table"] != ans["table"]:
+                    fails.append(F("C", where + "model: table after the history %s differs from the table primed with the history's keys %s (densify_history_eq_prior)"
+                                   % (json.dumps(ah["table"])[:200], json.dumps(ans["table"])[:200]), "C:densify-history"))
+                if ah["hist_keys"] != prior.get(i, []):
+                    fails.append(F("A", where + "keys of the history: harness %s, model historyKeys %s" % (prior.get(i, [])[:20], ah["hist_keys"][:20]), "A:history-keys"))
 
     def eval_sequence(self, case, seq, si, where, pipe, pipe_err, stepw, chain, lazy, fails, tags):
         wrap = case.get("wrap")
@@ -2398,6 +2884,12 @@ class C10(Property):
         batch_obs = None
         # representation-is-a-function check: not for pipelines that add action noise (every occurrence differs by design)
         repmap = None if any(st["f"] == "noise" and st.get("a") for st in chain) else {}
+        if repmap is not None and levels_vary(seq):
+            # phase 6 / round i: categoricals whose LEVEL LISTS differ between the interactions of one stream: Repr's "same action list as before" fast path
+            # compares the lists with == (a Categorical is its string), so an equal list under another level order re-uses the earlier one-hots - positions
+            # and rewards stay aligned, the cross-interaction "one representation per action value" demand is not applied there (see notes, Phase 6)
+            repmap = None
+            tags.append("skipB:representation-function:levels-vary")
         if pipe is not None:
             try:
                 if lazy:
@@ -2481,7 +2973,7 @@ class C10(Property):
         cfg = detect_cfg()
         mchain = []
         for i, st in enumerate(chain):
-            ms = dict(st)
+            ms = {k: v for k, v in st.items() if k not in (st.get("omit") or [])}     # left-out arguments: the model's own defaults apply
             if st["f"] == "noise":
                 eff = dict(st)
                 if not st.get("c") and not st.get("a"):
@@ -2592,7 +3084,9 @@ class C10(Property):
     # ---- shrinking
     def shrink(self, case):
         if case.get("abort") is not None:
-            yield {k: v for k, v in case.items() if k != "abort"}
+            yield {k: v for k, v in case.items() if k not in ("abort", "abort_kind")}
+            if case.get("more"):
+                yield {k: v for k, v in case.items() if k != "more"}
             if case["abort"] > 1:
                 yield dict(case, abort=case["abort"] - 1)
             if len(case["stream"]) > case["abort"] + 1:
@@ -2602,6 +3096,15 @@ class C10(Property):
                     yield {k: v for k, v in case.items() if k != key}
             return
         st, ch = case["stream"], case["chain"]
+        if any(x.get("omit") for x in ch):
+            # fewer arguments left out (the step keeps the default's value, now handed over explicitly)
+            for i, x in enumerate(ch):
+                for k in x.get("omit") or []:
+                    y = dict(x, omit=[o for o in x["omit"] if o != k])
+                    if not y["omit"]:
+                        del y["omit"]
+                        y.pop("ctor", None)
+                    yield dict(case, chain=ch[:i] + [y] + ch[i + 1:])
         more = case.get("more") or []
         if case.get("collection"):
             ro = case.get("read_order") or list(range(1 + len(more)))
@@ -2670,7 +3173,11 @@ class C10(Property):
                 "from props.c10 import Pipeline, sequences, source_of, aborting_source, members, mk_inter, obs_target, logged_index\n"
                 "case = json.loads(%r)\n"
                 "pipe = Pipeline(case)          # the filter objects / the Environments collection are built once\n"
-                "if case.get('abort') is not None:   # an aborted first read of the same objects: the source raises at item `abort`\n"
+                "if case.get('abort') is not None and case.get('abort_kind') == 'abandon':   # the consumer stops after `abort` items and closes the iterator\n"
+                "    from props.c10 import counting_source, abandon_after\n"
+                "    src, cnt = counting_source(case, case['stream'])\n"
+                "    abandon_after(pipe.run(src, 0), case['abort']); print('first read abandoned after', cnt[0], 'items')\n"
+                "elif case.get('abort') is not None:   # an aborted first read of the same objects: the source raises at item `abort`\n"
                 "    try: list(pipe.run(aborting_source(case, case['stream'], case['abort']), 0))\n"
                 "    except ConnectionError: print('first read aborted at item', case['abort'])\n"
                 "seqs = sequences(case)\n"
